@@ -36,6 +36,9 @@ fn epoch_string() -> BoxedStrategy<String> {
     3 => "[a-z0-9]{1,8}".prop_map(|s| s),
     3 => vec(prop_oneof![Just('é'), Just('\u{1F600}'), Just('"'), Just('\\'), Just('\n'), Just('a'), Just(' '), Just('\0'), Just('日')], 1..8)
       .prop_map(|v| v.into_iter().collect::<String>()),
+    // long epochs, incl. lengths at and around 2^6, 2^7, 2^8 (S196: epoch cut to 64 bytes on the grouping side only)
+    2 => (prop_oneof![Just(63usize), Just(64), Just(65), Just(127), Just(128), Just(129), Just(255), Just(256), Just(257), 9usize..600], "[a-z0-9é]{1,8}")
+      .prop_map(|(n, seed)| seed.chars().cycle().take(n).collect::<String>()),
   ]
   .boxed()
 }
@@ -107,7 +110,7 @@ fn oracle(c: &Case, st: &mut Stats) -> Result<(), String> {
     9..=41 => "t=9-41",
     _ => "t=byte-boundary",
   });
-  st.class(if c.epoch.is_empty() { "epoch=empty" } else if c.epoch.is_ascii() { "epoch=ascii" } else { "epoch=non-ascii" });
+  st.class(if c.epoch.len() > 64 { "epoch=long(>64 bytes)" } else if c.epoch.is_empty() { "epoch=empty" } else if c.epoch.is_ascii() { "epoch=ascii" } else { "epoch=non-ascii" });
   let first = create(&c.m, t, &c.epoch)?;
   st.evals(1);
   if first.key.len() != 16 {
@@ -267,7 +270,7 @@ pub fn property() -> Property {
   Property {
     id: "C17",
     level: "exploration",
-    rule: "generated (measurement bytes, t in 0..40, epoch strings empty / ASCII / multi-byte with quotes, backslashes, newlines, NUL; t-2..t+3 distinct shares, duplicates, shuffles, another epoch, a second measurement). Oracle: create_share parses as JSON with exactly key/share/tag, base64 fields decode to 16 bytes, a share accepted by Share::from_bytes with threshold t, 32 bytes, equal to MessageGenerator::share_with_local_randomness; group_shares returns the clients' key iff >= t distinct shares are present, never under another epoch, nothing for a mixed grouping below threshold (grouping is not asserted for t = 0). Non-trivial: share count within 1 of t, or a non-ASCII / empty epoch.",
+    rule: "generated (measurement bytes, t in 0..40, epoch strings empty / ASCII / multi-byte with quotes, backslashes, newlines, NUL / long (up to 600 characters, lengths around 64, 128, 256); t-2..t+3 distinct shares, duplicates, shuffles, another epoch, a second measurement). Oracle: create_share parses as JSON with exactly key/share/tag, base64 fields decode to 16 bytes, a share accepted by Share::from_bytes with threshold t, 32 bytes, equal to MessageGenerator::share_with_local_randomness; group_shares returns the clients' key iff >= t distinct shares are present, never under another epoch, nothing for a mixed grouping below threshold (grouping is not asserted for t = 0). Non-trivial: share count within 1 of t, or a non-ASCII / empty epoch.",
     assumptions: vec!["the #[wasm_bindgen] functions are called natively on the host target"],
     subs: vec![prop_sub("wasm_wrapper", 2500, 400000, strat, oracle)],
   }
